@@ -720,15 +720,19 @@ def run_r5(ctx, rule):
         rorder = [nm for nm, _ in sorted(field_pos.items(), key=lambda kv: kv[1])]
         rule.check(worder is not None and rorder == worder, "%s/header-order" % mod, "%s: header fields are parsed in the order they are written (written %s, parsed %s)" % (mod, worder, rorder), pf.loc())
         # writer keeps at least 5 fields
-        keep = None
+        # every test of a field count against a constant lower bound (`rest.len() >= 5`, `len > 5`) leaves 5 or more
+        keep = []
+        flip = {"Le": "Ge", "Lt": "Gt"}
         for b in wf.blocks:
             for s in b["stmts"]:
                 if s["k"] == "assign" and s["rv"]["k"] == "bin" and s["rv"]["op"] in ("Ge", "Gt", "Lt", "Le"):
                     e = sy.rvalue(s["rv"])
-                    for x in (e[2], e[3]):
-                        if x[0] == "c" and 2 <= x[1] <= 9:
-                            keep = (e[1], x[1])
-        rule.check(keep in (("Ge", 5), ("Gt", 4)), "%s/header-min-fields" % mod, "%s: the writer drops trailing zero fields only while at least 5 remain (%s)" % (mod, keep), wf.loc())
+                    if e[1] in ("Ge", "Gt") and e[3][0] == "c" and e[2][0] != "c" and 1 <= e[3][1] <= 9:
+                        keep.append((e[1], e[3][1]))
+                    elif e[1] in ("Le", "Lt") and e[2][0] == "c" and e[3][0] != "c" and 1 <= e[2][1] <= 9:
+                        keep.append((flip[e[1]], e[2][1]))
+        okk = bool(keep) and all((op == "Ge" and k >= 5) or (op == "Gt" and k >= 4) for op, k in keep)
+        rule.check(okk, "%s/header-min-fields" % mod, "%s: the writer drops trailing zero fields only while at least 5 remain (%s)" % (mod, keep), wf.loc())
         # the parser requires 5 fields before the first optional end of line
         first_opt = [bb for bb, t in pf.calls() if norm(util.cname(t)) == "flussab_aiger::token::required_newline_or_space"]
         n_before = 0
